@@ -2,9 +2,9 @@ package rules
 
 import (
 	"fmt"
-	"os"
 	"go/constant"
 	"go/token"
+	"os"
 	"regexp"
 	"strings"
 
@@ -146,10 +146,32 @@ func c14(e *Env) {
 			return keyOK && valOK
 		}
 	}
+	// key and value may also be written as pieces of their own (streaming form): then both kinds must be present
+	kvSplit := func(field, accessor string) func(pc *core.Sym, s string) bool {
+		other := "Params"
+		if field == "Params" {
+			other = "Tags"
+		}
+		hasKey, hasVal := false, false
+		for i, pc := range pieces {
+			_ = pc
+			hs := strs[i]
+			isVal := (strings.Contains(hs, accessor+"(") || strings.Contains(hs, "$t."+field+"[")) && !strings.Contains(hs, "$t."+other+"[")
+			if isVal {
+				hasVal = true
+			} else if strings.Contains(hs, "($t."+field+")[") {
+				hasKey = true
+			}
+		}
+		return func(pc *core.Sym, s string) bool { return hasKey && hasVal }
+	}
+	either := func(a, b func(pc *core.Sym, s string) bool) func(pc *core.Sym, s string) bool {
+		return func(pc *core.Sym, s string) bool { return a(pc, s) || b(pc, s) }
+	}
 	chk("param-key+value", "name and value of every parameter are part of the hashed identity",
-		kv("Params", "(*Task).Param"), "no hashed piece combines a key of Task.Params with the value of that parameter")
+		either(kv("Params", "(*Task).Param"), kvSplit("Params", "(*Task).Param")), "no hashed piece combines a key of Task.Params with the value of that parameter")
 	chk("tag-key+value", "name and value of every tag are part of the hashed identity",
-		kv("Tags", "(*Task).Tag"), "no hashed piece combines a key of Task.Tags with the value of that tag (e.g. the value is read from another map): tasks differing only in a tag value share a temp dir")
+		either(kv("Tags", "(*Task).Tag"), kvSplit("Tags", "(*Task).Tag")), "no hashed piece combines a key of Task.Tags with the value of that tag (e.g. the value is read from another map): tasks differing only in a tag value share a temp dir")
 	// ---- R2 order determinism
 	ob2 := r.Ob("R2", "TempDir:order", "every map feeding the pre-image is traversed in sorted key order (no direct map range reaches the hash or the prefix)")
 	badOrder := ""
@@ -201,7 +223,7 @@ func c14(e *Env) {
 		ob3.Unknown(where, "separator is not a constant: "+sep.String())
 	}
 	// ---- R4 shape and length
-	e.c14Shape(g, sy, td, full, pre, where)
+	e.c14Shape(g, sy, td, full, pre, where, id.writes)
 	// ---- R5 carrier excluded (fixed F5)
 	ob5 := r.Ob("R5", "TempDir:joined-port-carrier-excluded", "the path of an in-IP that only carries a sub-stream (joined port; random temp-file name) does not enter the identity")
 	found := false
@@ -209,7 +231,8 @@ func c14(e *Env) {
 		if !n.IsBuiltin("append") || n.Kind == core.KAfter || len(n.Call.Args) < 2 {
 			continue
 		}
-		as := sy.InCtx(n.Ctx, n.Call.Args[1]).String()
+		// (without looking through helper calls: a slice assembled by a helper is judged at the helper's own appends)
+		as := e.symbolizer().InCtx(n.Ctx, n.Call.Args[1]).String()
 		if !(strings.Contains(as, fnPath+"(") && strings.Contains(as, "$t.InIPs") && !strings.Contains(as, "subStreamIPs[")) {
 			continue
 		}
@@ -235,6 +258,7 @@ type tdIdentity struct {
 	piecesSym, sepSym *core.Sym
 	pieces            []*core.Sym
 	where, joinWhere  string
+	writes            []*core.Node // streaming form: the nodes that write a piece into the hash / builder
 }
 
 func (e *Env) tempDirIdentity(td *ssa.Function) *tdIdentity {
@@ -278,28 +302,89 @@ func (e *Env) tempDirIdentity(td *ssa.Function) *tdIdentity {
 				return piecesSym == nil
 			})
 			joinWhere = where
-		case n.Call != nil && n.Call.IsInvoke() && n.Call.Method.Name() == "Write" && strings.Contains(n.Call.Value.Type().String(), "hash.Hash"):
-			arg := sy.InCtx(n.Ctx, n.Call.Args[0])
-			// convert(pieces[i]) inside a loop over pieces
-			var coll *core.Sym
-			arg.Walk(func(z *core.Sym) bool {
-				if (z.Op == "elem" || z.Op == "rangeval") && coll == nil {
-					coll = z.Args[0]
+		}
+	}
+	// the hashed string may be accumulated in a strings.Builder: its WriteString calls are the pieces
+	var accBuilder *core.Sym
+	var accWrites []*core.Node
+	if pre != nil && piecesSym == nil {
+		pre.Walk(func(z *core.Sym) bool {
+			if z.Op == "call" && z.Name == "(*strings.Builder).String" && len(z.Args) == 1 && accBuilder == nil {
+				accBuilder = z.Args[0]
+			}
+			return accBuilder == nil
+		})
+	}
+	if pre == nil || accBuilder != nil {
+		// streaming form: h := sha1.New(); then h.Write([]byte(piece)) / io.WriteString(h, piece) / fmt.Fprint(h, piece),
+		// directly or through a helper or closure, for single pieces or in a loop over a slice of pieces
+		var written []*core.Sym
+		isHash := func(c *core.Ctx, v ssa.Value) bool {
+			if strings.Contains(v.Type().String(), "hash.Hash") {
+				return true
+			}
+			return strings.Contains(sy.InCtx(c, v).String(), "crypto/sha1.New(")
+		}
+		for _, n := range g.Nodes {
+			if n.Call == nil || n.Kind == core.KAfter {
+				continue
+			}
+			var arg ssa.Value
+			switch {
+			case accBuilder == nil && n.Call.IsInvoke() && (n.Call.Method.Name() == "Write" || n.Call.Method.Name() == "WriteString") && isHash(n.Ctx, n.Call.Value) && len(n.Call.Args) == 1:
+				arg = n.Call.Args[0]
+			case accBuilder != nil:
+				if n.IsCallTo("(*strings.Builder).WriteString", "(*strings.Builder).Write") {
+					if rc := sy.InCtx(n.Ctx, n.Call.Args[0]); rc.Val != nil && rc.Val == accBuilder.Val {
+						arg = n.Call.Args[1]
+					}
 				}
-				return coll == nil
-			})
-			if coll != nil {
+			case n.IsCallTo("io.WriteString") && isHash(n.Ctx, n.Call.Args[0]):
+				arg = n.Call.Args[1]
+			case n.IsCallTo("fmt.Fprint", "fmt.Fprintf") && isHash(n.Ctx, n.Call.Args[0]):
+				arg = n.Call.Args[len(n.Call.Args)-1]
+			}
+			if arg == nil {
+				continue
+			}
+			a := sy.InCtx(n.Ctx, arg)
+			for a.Op == "call" && a.Name == "convert" && len(a.Args) == 1 {
+				a = a.Args[0]
+			}
+			where, joinWhere = g.Where(n), g.Where(n)
+			accWrites = append(accWrites, n)
+			var coll *core.Sym
+			if (a.Op == "elem" || a.Op == "rangeval") && len(a.Args) > 0 {
 				if _, ok := e.loopOver(g, n, ""); ok {
-					pre, piecesSym, sepSym = arg, coll, &core.Sym{Op: "lit", Lit: ""}
-					where, joinWhere = g.Where(n), g.Where(n)
+					coll = a.Args[0]
 				}
 			}
+			if coll != nil {
+				written = append(written, coll)
+			} else {
+				written = append(written, &core.Sym{Op: "list", Args: []*core.Sym{a}})
+			}
+			pre = a
+		}
+		if len(written) == 1 {
+			piecesSym = written[0]
+		} else if len(written) > 1 {
+			// several writes: the pre-image is their concatenation
+			acc := written[0]
+			for _, w := range written[1:] {
+				acc = &core.Sym{Op: "call", Name: "builtin.append", Args: []*core.Sym{acc, w}}
+			}
+			piecesSym = acc
+		}
+		if piecesSym != nil {
+			pre = piecesSym
+			sepSym = &core.Sym{Op: "lit", Lit: ""}
 		}
 	}
 	if pre == nil || piecesSym == nil || ret == nil {
 		return nil
 	}
-	return &tdIdentity{sy: sy, g: g, ret: ret, pre: pre, piecesSym: piecesSym, sepSym: sepSym, pieces: appendedPieces(piecesSym), where: where, joinWhere: joinWhere}
+	return &tdIdentity{sy: sy, g: g, ret: ret, pre: pre, piecesSym: piecesSym, sepSym: sepSym, pieces: appendedPieces(piecesSym), where: where, joinWhere: joinWhere, writes: accWrites}
 }
 
 func returnsSlice(f *ssa.Function) bool {
@@ -339,8 +424,15 @@ func sortsResult(f *ssa.Function) bool {
 	for _, b := range f.Blocks {
 		for _, in := range b.Instrs {
 			if rt, ok := in.(*ssa.Return); ok {
-				if len(rt.Results) != 1 || !sorted[rt.Results[0]] {
+				if len(rt.Results) != 1 {
 					return false
+				}
+				if !sorted[rt.Results[0]] {
+					// ... or handed to a helper of the module that sorts what it returns
+					c, isCall := rt.Results[0].(*ssa.Call)
+					if !isCall || c.Call.StaticCallee() == nil || c.Call.StaticCallee() == f || c.Call.StaticCallee().Blocks == nil || !sortsResult(c.Call.StaticCallee()) {
+						return false
+					}
 				}
 				// the sort call must dominate the return
 				okAny = true
@@ -350,12 +442,30 @@ func sortsResult(f *ssa.Function) bool {
 	return okAny
 }
 
-func (e *Env) c14Shape(g *core.XG, sy *core.Symbolizer, td *ssa.Function, full, pre *core.Sym, where string) {
+func (e *Env) c14Shape(g *core.XG, sy *core.Symbolizer, td *ssa.Function, full, pre *core.Sym, where string, accWrites []*core.Node) {
 	r := e.R
 	_ = e.P
 	ob := r.Ob("R4", "TempDir:template", "the name is <prefix> \".\" hex(sha1(pre-image)): one hash of the whole identity, hex encoded")
 	fl := full.Flat()
-	okTpl := len(fl) >= 3 && fl[len(fl)-2].Op == "lit" && fl[len(fl)-2].Lit == "." && isCallSym(fl[len(fl)-1], "encoding/hex.EncodeToString")
+	last := fl[len(fl)-1]
+	isHex := isCallSym(last, "encoding/hex.EncodeToString") || (last.Op == "call" && last.Name == "fmt%x")
+	if isHex {
+		// what is rendered is the SHA-1 digest: a [20]byte value, or the Sum of a hash.Hash
+		isDigest := false
+		last.Walk(func(z *core.Sym) bool {
+			if z.Val != nil {
+				if ts := z.Val.Type().String(); strings.Contains(ts, "[20]byte") || strings.Contains(ts, "hash.Hash") {
+					isDigest = true
+				}
+			}
+			if z.Op == "call" && strings.Contains(z.Name, "crypto/sha1.") {
+				isDigest = true
+			}
+			return !isDigest
+		})
+		isHex = isDigest
+	}
+	okTpl := len(fl) >= 3 && fl[len(fl)-2].Op == "lit" && strings.HasSuffix(fl[len(fl)-2].Lit, ".") && isHex
 	ob.Check(okTpl, where, full.Template(), "result template is "+trunc(full.Template(), 200)+", not <prefix>.<hex of the hash>")
 	// no nondeterministic source
 	obS := r.Ob("R4", "TempDir:no-clock-or-random", "no clock, random or temp-file value enters the temp-dir name")
@@ -373,11 +483,26 @@ func (e *Env) c14Shape(g *core.XG, sy *core.Symbolizer, td *ssa.Function, full, 
 	// the fold: the append that puts the name prefix (a piece mentioning the sanitised process name, which is not
 	// the bare task name) among the hashed pieces; its guard is the length test
 	var fold *core.Node
+	isAccWrite := map[*core.Node]bool{}
+	for _, n := range accWrites {
+		isAccWrite[n] = true
+	}
 	for _, n := range g.Nodes {
-		if !n.IsBuiltin("append") || n.Kind == core.KAfter || len(n.Call.Args) < 2 {
+		if !(n.IsBuiltin("append") || isAccWrite[n]) || n.Kind == core.KAfter || len(n.Call.Args) < 1 {
 			continue
 		}
-		for _, pc := range appendedPieces(&core.Sym{Op: "call", Name: "builtin.append", Args: []*core.Sym{{Op: "nil"}, sy.InCtx(n.Ctx, n.Call.Args[1])}}) {
+		argV := n.Call.Args[len(n.Call.Args)-1]
+		if isAccWrite[n] {
+			// a write of one element of a collected slice is not the fold itself (the append to the slice is)
+			a := sy.InCtx(n.Ctx, argV)
+			for a.Op == "call" && a.Name == "convert" && len(a.Args) == 1 {
+				a = a.Args[0]
+			}
+			if a.Op == "elem" || a.Op == "rangeval" {
+				continue
+			}
+		}
+		for _, pc := range appendedPieces(&core.Sym{Op: "call", Name: "builtin.append", Args: []*core.Sym{{Op: "nil"}, sy.InCtx(n.Ctx, argV)}}) {
 			ps := pc.String()
 			if ps != "$t.Name" && strings.Contains(ps, "$t.Name") && strings.Contains(ps, "ReplaceAllString") {
 				fold = n
